@@ -140,6 +140,12 @@ func (t *fnTrans) call(ins ssa.Instruction, c *ssa.CallCommon, res ssa.Value) {
 		} else {
 			label = t.eng.shortName(name) + "." + label
 		}
+		if t.ct.Flags["assumepre"] != "" && kind == "static" {
+			// refinement wrapper: the implementation's own preconditions are the stated assumption under which the
+			// interface contract is proved for it (listed in the trusted base; see trustedBase)
+			t.assume(f)
+			continue
+		}
 		ob := t.oblig("pre", ins, label, f, "precondition of "+t.eng.shortName(name)+": "+cl.Text)
 		if ob != nil {
 			ob.Tags = cl.Tags
